@@ -99,6 +99,8 @@ async fn run_case(setup: String, events: String, take: bool) -> String {
     let mut local_tags: Vec<String> = vec![];
     let mut guards: Vec<Vec<Option<UsageGuard>>> = vec![];
 
+    // the builder of the last caller-side dialog: a forked INVITE creates several dialogs (one per To-tag) through one builder
+    let mut last_builder: Option<(ClientDialogBuilder, usize)> = None;
     for (i, d) in setup.split(',').enumerate() {
         let parts: Vec<&str> = d.split(':').collect();
         let (dialog, nus) = if parts[0] == "S" {
@@ -132,18 +134,25 @@ async fn run_case(setup: String, events: String, take: bool) -> String {
             let nus: usize = parts[1].parse().unwrap();
             let local = NameAddr::uri(endpoint.parse_uri("sip:me@example.org").unwrap());
             let target = endpoint.parse_uri("sip:peer@10.9.9.9").unwrap();
-            let mut b = ClientDialogBuilder::new(
-                endpoint.clone(),
-                dialog_layer,
-                local,
-                contact(&endpoint, "sip:me@10.0.0.1"),
-                target,
-            );
-            b.call_id = sip_types::header::typed::CallID(format!("c{}", i).into());
-            b.local_fromto.tag = Some(format!("l{}", i).into());
+            // "C": a new builder (own Call-ID and local tag); "F": a further fork answered through the previous builder
+            let (mut b, j) = match (parts[0], last_builder.take()) {
+                ("F", Some((b, j))) => (b, j),
+                _ => {
+                    let mut b = ClientDialogBuilder::new(
+                        endpoint.clone(),
+                        dialog_layer,
+                        local,
+                        contact(&endpoint, "sip:me@10.0.0.1"),
+                        target,
+                    );
+                    b.call_id = sip_types::header::typed::CallID(format!("c{}", i).into());
+                    b.local_fromto.tag = Some(format!("l{}", i).into());
+                    (b, i)
+                }
+            };
             let text = format!(
-                "SIP/2.0 200 OK\r\nVia: SIP/2.0/UDP 10.0.0.1:5060;branch=z9hG4bKx\r\nFrom: <sip:me@example.org>;tag=l{i}\r\nTo: <sip:peer@example.org>;tag=p{i}\r\nCall-ID: c{i}\r\nCSeq: 1 INVITE\r\nContact: <sip:peer@10.9.9.9>\r\nContent-Length: 0\r\n\r\n",
-                i = i
+                "SIP/2.0 200 OK\r\nVia: SIP/2.0/UDP 10.0.0.1:5060;branch=z9hG4bKx\r\nFrom: <sip:me@example.org>;tag=l{j}\r\nTo: <sip:peer@example.org>;tag=p{i}\r\nCall-ID: c{j}\r\nCSeq: 1 INVITE\r\nContact: <sip:peer@10.9.9.9>\r\nContent-Length: 0\r\n\r\n",
+                i = i, j = j
             );
             let msg = parse_received(&endpoint, text.as_bytes(), source, &tp).unwrap();
             let line = match msg.line {
@@ -164,7 +173,9 @@ async fn run_case(setup: String, events: String, take: bool) -> String {
                 headers: msg.headers,
                 body: msg.body,
             };
-            (b.create_dialog_from_response(&resp).unwrap(), nus)
+            let dialog = b.create_dialog_from_response(&resp).unwrap();
+            last_builder = Some((b, j));
+            (dialog, nus)
         };
         local_tags.push(dialog.local_fromto.tag.as_ref().unwrap().to_string());
         let mut gs = vec![];
